@@ -160,3 +160,29 @@ def cp(s):
 
 def abstract_pte(table):
     return [dict(pattern=cp(e['pattern']), msg=cp(e['msg']), params=e['params']) for e in table]
+
+
+def lines_via_process(sub, ver, data, variant):
+    """the same bytes as the user-data section of an I/O drawer error log (creator 'M', component 0x2C00, sub-type
+    72 / 73 / 84, version = drawer type), decoded by the real `peltool -f` started as a real process in one of the
+    ordinary environments (seams.PROC_VARIANTS).  -> the list of lines the section shows, or a one-element list
+    saying what went wrong"""
+    import json
+    import random
+    from . import encode, genpel, seams
+    rng = random.Random(len(data) * 131 + sub)
+    pel = genpel.gen_pel(rng, kinds=[], creator='M', sev=0x40, flags=0x2000, eid=encode.u32(0x5D000001))
+    pel['secs'] = [dict(genpel.hdr(rng, 'UD'), kind='UD', comp=[0x2C, 0x00], sub=sub, ver=ver, payload=list(data))]
+    path = os.path.join(seams.scratch_dir('drawerproc'), 'one.pel')
+    seams.write_file(path, bytes(encode.encode(pel)))
+    res = seams.run_cli_proc(['-f', path, '-E'], variant)
+    os.remove(path)
+    key = {72: 'History Log', 73: 'ILOG', 84: 'Trace'}[sub]
+    try:
+        doc = json.loads(res['out'])
+        sec = doc['User Data']
+        if 'Error' in sec or not isinstance(sec.get(key), list):
+            return ['the section shows no %s lines: %s' % (key, json.dumps(sec)[:200])]
+        return sec[key]
+    except (ValueError, KeyError, TypeError) as e:
+        return ['no document from the process (%s): %s %s' % (variant, repr(e)[:80], (res['err'] or '')[-200:])]
